@@ -1010,6 +1010,12 @@ def expected_reexports(p: Dict[str, Any], multi: bool = False) -> List[Dict[str,
                         found.append({"site": [si, 0], "kind": "module", "old": f"{tq}.{orig}",
                                       "new": ".".join(mod_path(p, ri - 1)) + "." + as_, "rex": ri, "origin": oi,
                                       "members": [(n, pc2) for n, (k2, pc2) in top_level_defs(p, si).items()], "member_origin": si})
+    # a re-exporting module can itself be re-exported (renamed) by its package: what it re-exports is documented under its final name
+    renames = {m["old"]: m["new"] for m in found if m["kind"] == "module"}
+    for f in found:
+        for old_q, new_q in renames.items():
+            if f["kind"] != "module" and f["new"].startswith(old_q + "."):
+                f["new"] = new_q + f["new"][len(old_q):]
     by_site: Dict[Tuple[int, int], List[Dict[str, Any]]] = {}
     for f in found:
         lst = by_site.setdefault(tuple(f["site"]), [])
